@@ -10,7 +10,7 @@ PROP = Property(
     coq_targets=["Extract/Extract_Wire.vo"],
     engines=[Engine(name="wire", c_srcs=["harness/wire_drv.c"],
                     ml_srcs=["ocaml/gen/WireModel.ml", "ocaml/wire_drv.ml"],
-                    gen=dnsgen.gen, n_quick=12000, n_thorough=150000, sep=None)],
+                    gen=dnsgen.gen, n_quick=12000, n_thorough=150000, sep=None, timeout=600)],
     trusted_base=["Coq 8.16.1 kernel + coqc (vm_compute; no native_compute)",
                   "extraction (ExtrOcamlBasic only, no Extract Constant) + OCaml 4.13.1",
                   "gen/c2gallina.py (ares_buf_len/consume/set_position/get_position, ares_dns_rr_remaining_len, ares_dns_flags_arevalid translated from the working tree)",
